@@ -1,401 +1,762 @@
-"""E7 -- two front ends, one IR, for the rainflow counters.
+"""E7 -- two front ends, one IR, for the rainflow counters (and their entry points).
 
-C side:   clang-14 -fsyntax-only -Xclang -ast-dump=json (the preprocessed AST the
-          build sees, so USE_FASTER_RAINFLOW_ROUTINE is honoured)
+C side:   clang-14 -fsyntax-only -Xclang -ast-dump=json (the preprocessed AST the build sees, so
+          USE_FASTER_RAINFLOW_ROUTINE is honoured)
 Py side:  ast of py_rain.py
 
-IR (nested tuples):
-  stmts : list of
-     ('set', lvalue, expr)           lvalue = ('var', name) | ('idx', array, expr)
-     ('emit', array, (expr, ...))    one output row  (C: n consecutive `*p++ = e`;  Py: n += 1; a[n, c] = e ...)
-     ('for', var, lo, hi, body)      for var in lo..hi-1
-     ('while', cond, body)
-     ('if', cond, then, else)
-     ('break',)
-  expr  : ('num', Fraction) | ('var', name) | ('idx', array, expr) | ('bin', op, a, b) | ('neg', a)
-          | ('abs', a) | ('cmp', op, a, b)
+Both are lowered to ONE structured IR in which every loop form (C `for` with any init / condition / increment, `while`,
+`for(;;)` with `break`, `do`; Python `for .. in range(..)`, `while`, `while True`) is the single statement
+    ('loop', cond | None, body, step)            # while cond: body; step        -- `continue` jumps to `step`
+and every side effect of an expression (`pts[++j]`, `*rf++ = e`, `n++`) is an explicit assignment.  Nothing is recognised
+by name: helper functions are lowered on demand and inlined by the symbolic executor (e7_sym), allocation / reference
+counting / slicing calls are ordinary calls the executor has a model for.
+
+IR (nested tuples)
+  stmt : ('set', lvalue, expr)                    lvalue = ('var', name) | ('idx', base expr, index expr) | ('idx2', base, row, col)
+         ('unpack', [lvalue, ...], expr)          tuple assignment from a tuple-valued expression
+         ('if', cond, then, else)
+         ('loop', cond | None, body, step)
+         ('break',) ('continue',) ('return', expr | None) ('raise', expr) ('goto', label) ('label', name)
+         ('expr', expr)                           a call evaluated for its effect
+         ('havoc', name)                          the variable no longer has a defined value (Python loop variable after its loop)
+  expr : ('num', Fraction) ('str', s) ('null',) ('bool', b) ('var', name) ('sym', dotted name)
+         ('idx', base, i) ('idx2', base, row, col) ('upto', base, stop)          # a[i]  a[r, c]  a[:stop]
+         ('bin', op, a, b) ('neg', a) ('abs', a) ('cmp', op, a, b) ('not', a) ('and', a, b) ('or', a, b) ('cond', c, a, b)
+         ('call', name, [args], {kw: expr}) ('callv', callee expr, [args], {kw}) ('tuple', [exprs]) ('attr', obj, name)
+         ('addr', lvalue) ('sizeof', type text)
 """
 from __future__ import annotations
 
 import ast
 import json
 import os
+import re
 import subprocess
 from fractions import Fraction
 
 from .core import AnchorError, Unsupported
 
 CLANG = "clang-14"
+ONE = ("num", Fraction(1))
+ZERO = ("num", Fraction(0))
 
 
 # ---------------------------------------------------------------------------
+_INC = {}
+
+
 def include_dirs():
     """configuration query (separate process; the checker itself never imports numpy/pyyeti)"""
+    if "dirs" in _INC:
+        return _INC["dirs"]
     code = "import sysconfig, numpy; print(sysconfig.get_paths()['include']); print(numpy.get_include())"
     for py in ("/venv/bin/python",):
         try:
             r = subprocess.run([py, "-c", code], capture_output=True, text=True, timeout=60)
-        except Exception as e:  # noqa
+        except Exception:  # noqa
             continue
         if r.returncode == 0:
-            return [l.strip() for l in r.stdout.splitlines() if l.strip()]
+            _INC["dirs"] = [l.strip() for l in r.stdout.splitlines() if l.strip()]
+            return _INC["dirs"]
     raise Unsupported("cannot determine Python/numpy include directories for clang")
 
 
-def clang_function(cfile, name):
-    if not os.path.exists(cfile):
-        raise AnchorError(f"{cfile} not found")
-    incs = include_dirs()
-    cmd = [CLANG, "-fsyntax-only"] + [f"-I{i}" for i in incs] + \
-          ["-Xclang", "-ast-dump=json", "-Xclang", f"-ast-dump-filter={name}", cfile]
-    try:
-        r = subprocess.run(cmd, capture_output=True, text=True, timeout=120)
-    except FileNotFoundError:
-        raise Unsupported("clang-14 not available")
-    if r.returncode != 0:
-        raise Unsupported(f"clang failed: {r.stderr[:400]}")
-    dec = json.JSONDecoder()
-    s = r.stdout
-    i = 0
-    best = None
-    while i < len(s):
-        while i < len(s) and s[i].isspace():
-            i += 1
-        if i >= len(s):
-            break
-        o, i = dec.raw_decode(s, i)
-        if o.get("kind") == "FunctionDecl" and o.get("name") == name:
-            if any(c.get("kind") == "CompoundStmt" for c in o.get("inner", [])):
-                best = o
-    if best is None:
+def numpy_api_names():
+    """{index: name} of the numpy C-API table (`#define PyArray_New (*(...) PyArray_API[93])` in __multiarray_api.h): the macros of
+    arrayobject.h expand to calls through this table, so the clang AST shows only the index"""
+    if "api" in _INC:
+        return _INC["api"]
+    out = {}
+    for d in include_dirs():
+        for root, _, files in os.walk(d):
+            for f in files:
+                if f == "__multiarray_api.h":
+                    txt = open(os.path.join(root, f), errors="replace").read()
+                    for m in re.finditer(r"#define\s+(\w+)\s*\\?\s*\n?\s*\(\*\([^#]*?PyArray_API\[(\d+)\]\)", txt):
+                        out.setdefault(int(m.group(2)), m.group(1))
+    if not out:
+        raise Unsupported("numpy C-API table (__multiarray_api.h) not found")
+    _INC["api"] = out
+    return out
+
+
+_CLANG_CACHE = {}
+
+
+def clang_function(cfile, name, required=True):
+    """FunctionDecl (definition) of `name` in cfile as the build's preprocessor sees it"""
+    key = (cfile, name)
+    if key in _CLANG_CACHE:
+        best = _CLANG_CACHE[key]
+    else:
+        if not os.path.exists(cfile):
+            raise AnchorError(f"{cfile} not found")
+        incs = include_dirs()
+        cmd = [CLANG, "-fsyntax-only"] + [f"-I{i}" for i in incs] + \
+              ["-Xclang", "-ast-dump=json", "-Xclang", f"-ast-dump-filter={name}", cfile]
+        try:
+            r = subprocess.run(cmd, capture_output=True, text=True, timeout=120)
+        except FileNotFoundError:
+            raise Unsupported("clang-14 not available")
+        if r.returncode != 0:
+            raise Unsupported(f"clang failed: {r.stderr[:400]}")
+        dec = json.JSONDecoder()
+        s = r.stdout
+        i = 0
+        best = None
+        while i < len(s):
+            while i < len(s) and s[i].isspace():
+                i += 1
+            if i >= len(s):
+                break
+            o, i = dec.raw_decode(s, i)
+            if o.get("kind") == "FunctionDecl":
+                if any(c.get("kind") == "CompoundStmt" for c in o.get("inner", [])):
+                    _CLANG_CACHE[(cfile, o.get("name"))] = o
+                    if o.get("name") == name:
+                        best = o
+        _CLANG_CACHE[key] = best
+    if best is None and required:
         raise AnchorError(f"C function {name} (definition) not found in {cfile}")
     return best
 
 
+def c_line(n):
+    """source line of a clang node (best effort: clang omits repeated fields)"""
+    for k in ("loc", "range"):
+        d = n.get(k) or {}
+        if k == "range":
+            d = d.get("begin") or {}
+        for kk in ("line",):
+            if kk in d:
+                return d[kk]
+        for sub in ("expansionLoc", "spellingLoc"):
+            if sub in d and "line" in d[sub]:
+                return d[sub]["line"]
+    return None
+
+
+INT_CTYPES = ("npy_intp", "int", "long", "Py_ssize_t", "ssize_t", "size_t", "unsigned long", "unsigned int", "unsigned", "npy_int64",
+              "long long", "short", "char", "intptr_t", "npy_int", "npy_long")
+FLOAT_CTYPES = ("double", "float", "npy_double", "npy_float64", "long double")
+
+
+def ctype_class(t):
+    """'int' | 'float' | 'ptr' | 'arr' | None from a clang qualType"""
+    t = re.sub(r"\b(const|volatile|static|register)\b", "", t or "").strip()
+    if t.endswith("]"):
+        return "arr"
+    if t.endswith("*"):
+        return "ptr"
+    if t in INT_CTYPES:
+        return "int"
+    if t in FLOAT_CTYPES:
+        return "float"
+    return None
+
+
 # ---------------------------------------------------------------------------
 # C lowering
-class CLower:
+class CFunc:
+    """one C function lowered: params [(name, class, qualType)], body IR, declared types {name: class}"""
+
     def __init__(self, fdecl):
         self.f = fdecl
-        self.house = []      # housekeeping statements kept out of the IR (for the pairing check)
-        self.line = None
+        self.name = fdecl.get("name")
+        self.params = []
+        self.ctypes = {}
+        self.qual = {}
+        for c in fdecl.get("inner", []):
+            if c.get("kind") == "ParmVarDecl":
+                q = (c.get("type") or {}).get("qualType", "")
+                self.params.append((c.get("name"), ctype_class(q), q))
+                self.ctypes[c.get("name")] = ctype_class(q)
+                self.qual[c.get("name")] = q
+        self.labels = {}
+        self._collect_labels(fdecl)
+        body = [c for c in fdecl["inner"] if c.get("kind") == "CompoundStmt"][0]
+        self.body = self.block(body)
 
-    def body(self):
-        return [c for c in self.f["inner"] if c.get("kind") == "CompoundStmt"][0]
+    # ---- helpers
+    def _collect_labels(self, n):
+        if isinstance(n, dict):
+            if n.get("kind") == "LabelStmt":
+                self.labels[n.get("declId")] = n.get("name")
+            for c in n.get("inner", []) or []:
+                self._collect_labels(c)
 
-    def _strip(self, n):
-        while n.get("kind") in ("ImplicitCastExpr", "ParenExpr", "CStyleCastExpr", "ConstantExpr"):
+    @staticmethod
+    def _strip(n):
+        while n.get("kind") in ("ImplicitCastExpr", "ParenExpr", "CStyleCastExpr", "ConstantExpr") and n.get("castKind") != "NullToPointer":
             n = n["inner"][0]
         return n
 
-    def expr(self, n, pre):
-        """returns IR expr; side effects (++j) are appended to `pre` as statements"""
+    def _api_index(self, callee):
+        """callee = (*(T)PyArray_API[i]) -> i"""
+        n = self._strip(callee)
+        if n.get("kind") == "UnaryOperator" and n.get("opcode") == "*":
+            n = self._strip(n["inner"][0])
+        if n.get("kind") == "ArraySubscriptExpr":
+            b = self._strip(n["inner"][0])
+            i = self._strip(n["inner"][1])
+            if b.get("kind") == "DeclRefExpr" and (b.get("referencedDecl") or {}).get("name") == "PyArray_API" and i.get("kind") == "IntegerLiteral":
+                return int(i["value"])
+        return None
+
+    # ---- expressions
+    def expr(self, n, pre, post):
         n = self._strip(n)
         k = n.get("kind")
+        if n.get("castKind") == "NullToPointer":
+            return ("null",)
         if k == "IntegerLiteral":
             return ("num", Fraction(int(n["value"])))
         if k == "FloatingLiteral":
             return ("num", Fraction(n["value"]))
+        if k == "CharacterLiteral":
+            return ("num", Fraction(int(n["value"])))
+        if k == "StringLiteral":
+            v = n.get("value", "")
+            try:
+                v = json.loads(v)
+            except Exception:  # noqa
+                v = v.strip('"')
+            return ("str", v)
         if k == "DeclRefExpr":
-            return ("var", n["referencedDecl"]["name"])
+            rd = n.get("referencedDecl") or {}
+            if rd.get("kind") in ("EnumConstantDecl",):
+                return ("sym", rd.get("name"))
+            if rd.get("kind") == "FunctionDecl":
+                return ("sym", rd.get("name"))
+            return ("var", rd.get("name"))
         if k == "ArraySubscriptExpr":
-            base = self._strip(n["inner"][0])
-            if base.get("kind") != "DeclRefExpr":
-                raise Unsupported("array base")
-            idx = self.expr(n["inner"][1], pre)
-            return ("idx", base["referencedDecl"]["name"], idx)
+            return ("idx", self.expr(n["inner"][0], pre, post), self.expr(n["inner"][1], pre, post))
         if k == "BinaryOperator":
             op = n["opcode"]
-            a = self.expr(n["inner"][0], pre)
-            b = self.expr(n["inner"][1], pre)
+            if op in ("&&", "||"):
+                p2, q2 = [], []
+                a = self.expr(n["inner"][0], pre, post)
+                b = self.expr(n["inner"][1], p2, q2)
+                if p2 or q2:
+                    raise Unsupported("side effect in the right operand of && / ||")
+                return ("and" if op == "&&" else "or", a, b)
+            if op == "=" or op == ",":
+                raise Unsupported(f"C operator `{op}` inside an expression")
+            a = self.expr(n["inner"][0], pre, post)
+            b = self.expr(n["inner"][1], pre, post)
             if op in ("+", "-", "*", "/"):
                 return ("bin", op, a, b)
             if op in ("<", ">", "<=", ">=", "==", "!="):
                 return ("cmp", op, a, b)
-            raise Unsupported(f"C operator {op}")
+            return ("call", f"op:{op}", [a, b], {})
         if k == "UnaryOperator":
             op = n["opcode"]
             if op == "-":
-                a = self.expr(n["inner"][0], pre)
-                if a[0] == "num":
-                    return ("num", -a[1])
-                return ("neg", a)
-            if op == "++" and not n.get("isPostfix"):
-                tgt = self._strip(n["inner"][0])
-                if tgt.get("kind") != "DeclRefExpr":
-                    raise Unsupported("++ target")
-                v = ("var", tgt["referencedDecl"]["name"])
-                pre.append(("set", v, ("bin", "+", v, ("num", Fraction(1)))))
-                return v
-            raise Unsupported(f"C unary {op}{' postfix' if n.get('isPostfix') else ''} in expression")
+                a = self.expr(n["inner"][0], pre, post)
+                return ("num", -a[1]) if a[0] == "num" else ("neg", a)
+            if op == "+":
+                return self.expr(n["inner"][0], pre, post)
+            if op == "!":
+                return ("not", self.expr(n["inner"][0], pre, post))
+            if op in ("++", "--"):
+                lv = self.lvalue(n["inner"][0], pre, post)
+                if lv[0] != "var":
+                    raise Unsupported("++/-- on something that is not a variable")
+                upd = ("set", lv, ("bin", "+" if op == "++" else "-", lv, ONE))
+                if n.get("isPostfix"):
+                    if any(s[1] == lv for s in post if s[0] == "set"):
+                        raise Unsupported("two post-increments of one variable in one statement")
+                    post.append(upd)
+                else:
+                    pre.append(upd)
+                return lv
+            if op == "*":
+                return ("idx", self.expr(n["inner"][0], pre, post), ZERO)
+            if op == "&":
+                return ("addr", self.lvalue(n["inner"][0], pre, post))
+            raise Unsupported(f"C unary operator {op}")
         if k == "CallExpr":
             callee = self._strip(n["inner"][0])
-            nm = (callee.get("referencedDecl") or {}).get("name")
-            if nm == "fabs" and len(n["inner"]) == 2:
-                return ("abs", self.expr(n["inner"][1], pre))
-            raise Unsupported(f"C call {nm}")
+            args = [self.expr(a, pre, post) for a in n["inner"][1:]]
+            if callee.get("kind") == "DeclRefExpr":
+                nm = (callee.get("referencedDecl") or {}).get("name")
+                return ("call", nm, args, {})
+            ix = self._api_index(n["inner"][0])
+            if ix is not None:
+                return ("call", numpy_api_names().get(ix, f"PyArray_API[{ix}]"), args, {})
+            raise Unsupported("call through an expression that is not a function name")
+        if k == "ConditionalOperator":
+            c = self.expr(n["inner"][0], pre, post)
+            p2, q2 = [], []
+            a = self.expr(n["inner"][1], p2, q2)
+            b = self.expr(n["inner"][2], p2, q2)
+            if p2 or q2:
+                raise Unsupported("side effect in an arm of ?:")
+            return ("cond", c, a, b)
+        if k == "UnaryExprOrTypeTraitExpr":
+            t = (n.get("argType") or {}).get("qualType")
+            if t is None and n.get("inner"):
+                t = (self._strip(n["inner"][0]).get("type") or {}).get("qualType")
+            return ("sizeof", t or "?")
         raise Unsupported(f"C expression kind {k}")
 
-    def _is_push(self, n):
-        """*p++ = e  -> (p, e_node)"""
-        if n.get("kind") == "BinaryOperator" and n.get("opcode") == "=":
-            lhs = self._strip(n["inner"][0])
-            if lhs.get("kind") == "UnaryOperator" and lhs.get("opcode") == "*":
-                inner = self._strip(lhs["inner"][0])
-                if inner.get("kind") == "UnaryOperator" and inner.get("opcode") == "++" and inner.get("isPostfix"):
-                    t = self._strip(inner["inner"][0])
-                    if t.get("kind") == "DeclRefExpr":
-                        return t["referencedDecl"]["name"], n["inner"][1]
-        return None
+    def lvalue(self, n, pre, post):
+        n = self._strip(n)
+        k = n.get("kind")
+        if k == "DeclRefExpr":
+            return ("var", n["referencedDecl"]["name"])
+        if k == "ArraySubscriptExpr":
+            return ("idx", self.expr(n["inner"][0], pre, post), self.expr(n["inner"][1], pre, post))
+        if k == "UnaryOperator" and n.get("opcode") == "*":
+            return ("idx", self.expr(n["inner"][0], pre, post), ZERO)
+        raise Unsupported(f"C lvalue {k}")
 
-    def stmts(self, nodes):
-        out = []
-        for n in nodes:
-            out.extend(self.stmt(n))
-        return group_pushes(out)
-
+    # ---- statements
     def block(self, n):
         if n.get("kind") == "CompoundStmt":
-            return self.stmts(n.get("inner", []))
-        return self.stmts([n])
+            out = []
+            for c in n.get("inner", []) or []:
+                out.extend(self.stmt(c))
+            return out
+        return self.stmt(n)
+
+    def _assign(self, lv, rhs):
+        """`lv = c ? a : b` -> if c: lv = a else: lv = b"""
+        if rhs[0] == "cond":
+            return [("if", rhs[1], self._assign(lv, rhs[2]), self._assign(lv, rhs[3]))]
+        return [("set", lv, rhs)]
+
+    def _return(self, e):
+        if e is not None and e[0] == "cond":
+            return [("if", e[1], self._return(e[2]), self._return(e[3]))]
+        return [("return", e)]
 
     def stmt(self, n):
         k = n.get("kind")
         if k == "CompoundStmt":
-            return self.stmts(n.get("inner", []))
+            return self.block(n)
         if k == "NullStmt":
             return []
         if k == "BreakStmt":
             return [("break",)]
+        if k == "ContinueStmt":
+            return [("continue",)]
         if k == "DeclStmt":
             out = []
             for d in n.get("inner", []):
-                if d.get("kind") == "VarDecl" and d.get("init"):
-                    init = d["inner"][-1]
-                    try:
-                        pre = []
-                        e = self.expr(init, pre)
-                        out.extend(pre)
-                        out.append(("set", ("var", d["name"]), e))
-                    except Unsupported:
-                        self.house.append(("decl", d["name"], n))
+                if d.get("kind") != "VarDecl":
+                    continue
+                q = (d.get("type") or {}).get("qualType", "")
+                self.ctypes[d["name"]] = ctype_class(q)
+                self.qual[d["name"]] = q
+                if not d.get("init"):
+                    continue
+                init = d["inner"][-1]
+                v = ("var", d["name"])
+                if self._strip(init).get("kind") == "InitListExpr":
+                    for i, el in enumerate(self._strip(init).get("inner", []) or []):
+                        pre, post = [], []
+                        e = self.expr(el, pre, post)
+                        out.extend(pre + self._assign(("idx", v, ("num", Fraction(i))), e) + post)
+                    continue
+                pre, post = [], []
+                e = self.expr(init, pre, post)
+                out.extend(pre + self._assign(v, e) + post)
             return out
         if k == "BinaryOperator" and n.get("opcode") == "=":
-            p = self._is_push(n)
-            if p:
-                pre = []
-                e = self.expr(p[1], pre)
-                return pre + [("push", p[0], e)]
-            pre = []
-            try:
-                lhs = self.lvalue(n["inner"][0], pre)
-                rhs = self.expr(n["inner"][1], pre)
-            except Unsupported:
-                self.house.append(("assign", None, n))
-                return []
-            return pre + [("set", lhs, rhs)]
+            pre, post = [], []
+            rhs = self.expr(n["inner"][1], pre, post)
+            lhs = self.lvalue(n["inner"][0], pre, post)
+            return pre + self._assign(lhs, rhs) + post
         if k == "CompoundAssignOperator":
-            pre = []
-            lhs = self.lvalue(n["inner"][0], pre)
-            rhs = self.expr(n["inner"][1], pre)
+            pre, post = [], []
+            lhs = self.lvalue(n["inner"][0], pre, post)
+            rhs = self.expr(n["inner"][1], pre, post)
             op = n["opcode"][:-1]
-            rd = ("var", lhs[1]) if lhs[0] == "var" else lhs
-            return pre + [("set", lhs, ("bin", op, rd, rhs))]
+            if op not in ("+", "-", "*", "/"):
+                raise Unsupported(f"C compound assignment {n['opcode']}")
+            return pre + [("set", lhs, ("bin", op, lhs, rhs))] + post
         if k == "UnaryOperator" and n.get("opcode") in ("++", "--"):
-            t = self._strip(n["inner"][0])
-            if t.get("kind") != "DeclRefExpr":
-                raise Unsupported("++ target")
-            v = ("var", t["referencedDecl"]["name"])
-            return [("set", v, ("bin", "+" if n["opcode"] == "++" else "-", v, ("num", Fraction(1))))]
+            pre, post = [], []
+            lv = self.lvalue(n["inner"][0], pre, post)
+            return pre + [("set", lv, ("bin", "+" if n["opcode"] == "++" else "-", lv, ONE))] + post
         if k == "ForStmt":
-            init, _, cond, inc, body = n["inner"]
-            pre = []
-            if not (init.get("kind") == "BinaryOperator" and init.get("opcode") == "="):
-                raise Unsupported("for-init")
-            var = self.lvalue(init["inner"][0], pre)
-            lo = self.expr(init["inner"][1], pre)
-            c = self.expr(cond, pre)
-            inc_s = self.stmt(inc)
-            if pre or var[0] != "var" or c[0] != "cmp" or c[1] != "<" or c[2] != var \
-                    or inc_s != [("set", var, ("bin", "+", var, ("num", Fraction(1))))]:
-                raise Unsupported("for loop is not `for (v=lo; v<hi; ++v)`")
-            return [("for", var[1], lo, c[3], self.block(body))]
+            init, _cv, cond, inc, body = n["inner"]
+            out = self.stmt(init) if init.get("kind") else []
+            c = None
+            if cond.get("kind"):
+                pre, post = [], []
+                c = self.expr(cond, pre, post)
+                if pre or post:
+                    raise Unsupported("side effect in a loop condition")
+            step = self._exprstmt(inc) if inc.get("kind") else []
+            return out + [("loop", c, self.block(body), step)]
         if k == "WhileStmt":
             cond, body = n["inner"][-2], n["inner"][-1]
-            pre = []
-            c = self.expr(cond, pre)
-            if pre:
-                raise Unsupported("side effect in while condition")
-            return [("while", c, self.block(body))]
+            pre, post = [], []
+            c = self.expr(cond, pre, post)
+            if pre or post:
+                raise Unsupported("side effect in a loop condition")
+            return [("loop", c, self.block(body), [])]
+        if k == "DoStmt":
+            body, cond = n["inner"][0], n["inner"][1]
+            pre, post = [], []
+            c = self.expr(cond, pre, post)
+            if pre or post:
+                raise Unsupported("side effect in a loop condition")
+            return [("loop", None, self.block(body), [("if", c, [], [("break",)])])]
         if k == "IfStmt":
             inner = n["inner"]
-            cond = inner[0]
-            # housekeeping: `if (...) goto fail;` and error returns
-            if any(x.get("kind") == "GotoStmt" for x in inner[1:]) or _contains(inner[1], ("GotoStmt", "ReturnStmt")):
-                self.house.append(("guard", None, n))
-                return []
-            pre = []
-            c = self.expr(cond, pre)
-            if pre:
-                raise Unsupported("side effect in if condition")
+            pre, post = [], []
+            c = self.expr(inner[0], pre, post)
+            if post:
+                raise Unsupported("post-increment in an if condition")
             then = self.block(inner[1])
             els = self.block(inner[2]) if len(inner) > 2 else []
-            return [("if", c, then, els)]
-        if k in ("CallExpr", "ReturnStmt", "LabelStmt", "GotoStmt"):
-            self.house.append((k, None, n))
-            return []
+            return pre + [("if", c, then, els)]
+        if k == "ReturnStmt":
+            if not n.get("inner"):
+                return [("return", None)]
+            pre, post = [], []
+            e = self.expr(n["inner"][0], pre, post)
+            if post:
+                raise Unsupported("post-increment in a return expression")
+            return pre + self._return(e)
+        if k == "GotoStmt":
+            return [("goto", self.labels.get(n.get("targetLabelDeclId"), "?"))]
+        if k == "LabelStmt":
+            out = [("label", n.get("name"))]
+            for c in n.get("inner", []) or []:
+                out.extend(self.stmt(c))
+            return out
+        if k in ("CallExpr", "ParenExpr", "CStyleCastExpr", "ImplicitCastExpr"):
+            return self._exprstmt(n)
         raise Unsupported(f"C statement kind {k}")
 
-    def lvalue(self, n, pre):
-        n = self._strip(n)
-        if n.get("kind") == "DeclRefExpr":
-            return ("var", n["referencedDecl"]["name"])
-        if n.get("kind") == "ArraySubscriptExpr":
-            base = self._strip(n["inner"][0])
-            if base.get("kind") != "DeclRefExpr":
-                raise Unsupported("array base")
-            return ("idx", base["referencedDecl"]["name"], self.expr(n["inner"][1], pre))
-        raise Unsupported(f"C lvalue {n.get('kind')}")
+    def _exprstmt(self, n):
+        s = self._strip(n)
+        k = s.get("kind")
+        if k in ("BinaryOperator", "CompoundAssignOperator", "UnaryOperator") and (s.get("opcode") in ("=", "++", "--") or k == "CompoundAssignOperator"):
+            return self.stmt(s)
+        if k == "BinaryOperator" and s.get("opcode") == ",":
+            return self._exprstmt(s["inner"][0]) + self._exprstmt(s["inner"][1])
+        pre, post = [], []
+        e = self.expr(s, pre, post)
+        return pre + [("expr", e)] + post
 
 
-def _contains(n, kinds):
-    if n.get("kind") in kinds:
-        return True
-    return any(_contains(c, kinds) for c in n.get("inner", []) if isinstance(c, dict))
+class CUnit:
+    """the C translation unit: functions lowered on demand (helpers are found by the executor when it meets a call)"""
 
+    def __init__(self, cfile):
+        self.cfile = cfile
+        self.funcs = {}
+        self._defined = None
 
-def group_pushes(stmts):
-    out = []
-    i = 0
-    while i < len(stmts):
-        s = stmts[i]
-        if s[0] == "push":
-            arr = s[1]
-            row = []
-            while i < len(stmts) and stmts[i][0] == "push" and stmts[i][1] == arr:
-                row.append(stmts[i][2])
-                i += 1
-            out.append(("emit", arr, tuple(row)))
-        else:
-            out.append(s)
-            i += 1
-    return out
+    def func(self, name, required=True):
+        if name not in self.funcs:
+            fd = clang_function(self.cfile, name, required=required)
+            self.funcs[name] = CFunc(fd) if fd is not None else None
+        return self.funcs[name]
+
+    def helper(self, name):
+        """a function *defined* in this file, else None (library / API function)"""
+        if not re.fullmatch(r"[A-Za-z_]\w*", name or ""):
+            return None
+        if self._defined is None:
+            txt = open(self.cfile, errors="replace").read()
+            # candidates only (a cheap pre-filter so that clang is not asked about every library function): identifiers followed by `(`
+            # on a line that does not end the statement
+            self._defined = set(re.findall(r"^[A-Za-z_][\w \t\*]*?\b([A-Za-z_]\w*)[ \t]*\([^;]*$", txt, re.M))
+        if name not in self._defined:
+            return None
+        try:
+            return self.func(name, required=False)
+        except AnchorError:
+            return None
 
 
 # ---------------------------------------------------------------------------
 # Python lowering
-class PyLower:
-    def __init__(self, fn, rowvar="n", group=True):
+def _dotted(n):
+    if isinstance(n, ast.Name):
+        return n.id
+    if isinstance(n, ast.Attribute):
+        b = _dotted(n.value)
+        return None if b is None else b + "." + n.attr
+    return None
+
+
+class PyFunc:
+    def __init__(self, fn):
         self.fn = fn
-        self.rowvar = rowvar
-        self.group = group      # False: keep the individual ('cell', array, row, col, value) stores and the row counter
+        self.name = fn.name
+        self.params = [(a.arg, None, "") for a in fn.args.args]
+        self.defaults = {}
+        nd = len(fn.args.defaults)
+        for a, d in zip(fn.args.args[len(fn.args.args) - nd:], fn.args.defaults):
+            self.defaults[a.arg] = d
+        self.ctypes = {}
+        self._tmp = 0
+        self.locals = {a.arg for a in fn.args.args}
+        for x in ast.walk(fn):
+            if isinstance(x, ast.Name) and isinstance(x.ctx, ast.Store):
+                self.locals.add(x.id)
+        self.body = self.block(fn.body)
 
     def expr(self, n):
-        if isinstance(n, ast.Constant) and isinstance(n.value, (int, float)) and not isinstance(n.value, bool):
-            return ("num", Fraction(repr(n.value)) if isinstance(n.value, float) else Fraction(n.value))
+        if isinstance(n, ast.Constant):
+            v = n.value
+            if isinstance(v, bool):
+                return ("bool", v)
+            if v is None:
+                return ("null",)
+            if isinstance(v, int):
+                return ("num", Fraction(v))
+            if isinstance(v, float):
+                return ("num", Fraction(repr(v)))
+            if isinstance(v, str):
+                return ("str", v)
+            raise Unsupported(f"py constant {v!r}")
         if isinstance(n, ast.Name):
             return ("var", n.id)
-        if isinstance(n, ast.UnaryOp) and isinstance(n.op, ast.USub):
-            a = self.expr(n.operand)
-            return ("num", -a[1]) if a[0] == "num" else ("neg", a)
+        if isinstance(n, ast.UnaryOp):
+            if isinstance(n.op, ast.USub):
+                a = self.expr(n.operand)
+                return ("num", -a[1]) if a[0] == "num" else ("neg", a)
+            if isinstance(n.op, ast.UAdd):
+                return self.expr(n.operand)
+            if isinstance(n.op, ast.Not):
+                return ("not", self.expr(n.operand))
+            raise Unsupported(f"py unary operator {type(n.op).__name__}")
         if isinstance(n, ast.BinOp):
             ops = {ast.Add: "+", ast.Sub: "-", ast.Mult: "*", ast.Div: "/"}
             if type(n.op) not in ops:
-                raise Unsupported(f"py operator {type(n.op).__name__}")
+                return ("call", f"op:{type(n.op).__name__}", [self.expr(n.left), self.expr(n.right)], {})
             return ("bin", ops[type(n.op)], self.expr(n.left), self.expr(n.right))
-        if isinstance(n, ast.Compare) and len(n.ops) == 1:
-            ops = {ast.Lt: "<", ast.Gt: ">", ast.LtE: "<=", ast.GtE: ">=", ast.Eq: "==", ast.NotEq: "!="}
-            return ("cmp", ops[type(n.ops[0])], self.expr(n.left), self.expr(n.comparators[0]))
-        if isinstance(n, ast.Subscript) and isinstance(n.value, ast.Name):
-            if isinstance(n.slice, ast.Tuple):
-                raise Unsupported("2-d read")
-            return ("idx", n.value.id, self.expr(n.slice))
-        if isinstance(n, ast.Call) and isinstance(n.func, ast.Name) and n.func.id == "abs" and len(n.args) == 1:
-            return ("abs", self.expr(n.args[0]))
-        raise Unsupported(f"py expression {ast.unparse(n)}")
+        if isinstance(n, ast.BoolOp):
+            vals = [self.expr(v) for v in n.values]
+            out = vals[-1]
+            for v in reversed(vals[:-1]):
+                out = ("and" if isinstance(n.op, ast.And) else "or", v, out)
+            return out
+        if isinstance(n, ast.Compare):
+            ops = {ast.Lt: "<", ast.Gt: ">", ast.LtE: "<=", ast.GtE: ">=", ast.Eq: "==", ast.NotEq: "!=", ast.Is: "==", ast.IsNot: "!="}
+            parts = []
+            left = n.left
+            for op, right in zip(n.ops, n.comparators):
+                if type(op) not in ops:
+                    raise Unsupported(f"py comparison {type(op).__name__}")
+                parts.append(("cmp", ops[type(op)], self.expr(left), self.expr(right)))
+                left = right
+            out = parts[-1]
+            for p in reversed(parts[:-1]):
+                out = ("and", p, out)
+            return out
+        if isinstance(n, ast.IfExp):
+            return ("cond", self.expr(n.test), self.expr(n.body), self.expr(n.orelse))
+        if isinstance(n, ast.Tuple) or isinstance(n, ast.List):
+            return ("tuple", [self.expr(e) for e in n.elts])
+        if isinstance(n, ast.Subscript):
+            base = self.expr(n.value)
+            sl = n.slice
+            if isinstance(sl, ast.Tuple):
+                if len(sl.elts) != 2 or any(isinstance(e, ast.Slice) for e in sl.elts):
+                    raise Unsupported(f"py subscript {ast.unparse(n)}")
+                return ("idx2", base, self.expr(sl.elts[0]), self.expr(sl.elts[1]))
+            if isinstance(sl, ast.Slice):
+                if sl.lower is not None or sl.step is not None or sl.upper is None:
+                    raise Unsupported(f"py slice {ast.unparse(n)} (only a[:stop] is modelled)")
+                return ("upto", base, self.expr(sl.upper))
+            return ("idx", base, self.expr(sl))
+        if isinstance(n, ast.Call):
+            if any(isinstance(a, ast.Starred) for a in n.args) or any(k.arg is None for k in n.keywords):
+                raise Unsupported("py call with * / **")
+            args = [self.expr(a) for a in n.args]
+            kw = {k.arg: self.expr(k.value) for k in n.keywords}
+            d = _dotted(n.func)
+            if d is not None:
+                if d == "abs" and len(args) == 1 and not kw:
+                    return ("abs", args[0])
+                return ("call", d, args, kw)
+            return ("callv", self.expr(n.func), args, kw)
+        if isinstance(n, ast.Attribute):
+            d = _dotted(n)
+            if d is not None and d.split(".")[0] not in self.locals:
+                return ("sym", d)          # np.int64, numba.types.bool_: a name of another module, not a value computed here
+            return ("attr", self.expr(n.value), n.attr)
+        raise Unsupported(f"py expression {ast.unparse(n)[:60]}")
+
+    def lvalue(self, t):
+        if isinstance(t, ast.Name):
+            return ("var", t.id)
+        if isinstance(t, ast.Subscript):
+            e = self.expr(t)
+            if e[0] in ("idx", "idx2"):
+                return e
+        raise Unsupported(f"py assignment target {ast.unparse(t)}")
 
     def block(self, stmts):
         out = []
         for s in stmts:
             out.extend(self.stmt(s))
-        return self.group_rows(out) if self.group else out
+        return out
+
+    def _assign(self, lv, rhs):
+        if rhs[0] == "cond":
+            return [("if", rhs[1], self._assign(lv, rhs[2]), self._assign(lv, rhs[3]))]
+        return [("set", lv, rhs)]
+
+    def _return(self, e):
+        if e is not None and e[0] == "cond":
+            return [("if", e[1], self._return(e[2]), self._return(e[3]))]
+        return [("return", e)]
+
+    def _fresh(self):
+        self._tmp += 1
+        return ("var", f"%t{self._tmp}")
 
     def stmt(self, s):
-        if isinstance(s, ast.Expr) and isinstance(s.value, ast.Constant):
+        if isinstance(s, ast.Expr):
+            if isinstance(s.value, ast.Constant):
+                return []
+            if isinstance(s.value, ast.Call):
+                return [("expr", self.expr(s.value))]
+            raise Unsupported(f"py expression statement {ast.unparse(s)[:60]}")
+        if isinstance(s, ast.Pass):
             return []
         if isinstance(s, ast.Break):
             return [("break",)]
-        if isinstance(s, ast.Assign) and len(s.targets) == 1:
-            t = s.targets[0]
-            if isinstance(t, ast.Name):
-                return [("set", ("var", t.id), self.expr(s.value))]
-            if isinstance(t, ast.Subscript) and isinstance(t.value, ast.Name):
-                if isinstance(t.slice, ast.Tuple) and len(t.slice.elts) == 2:
-                    r, c = t.slice.elts
-                    if not (isinstance(c, ast.Constant) and isinstance(c.value, int)):
-                        raise Unsupported("output column")
-                    return [("cell", t.value.id, self.expr(r), c.value, self.expr(s.value))]
-                return [("set", ("idx", t.value.id, self.expr(t.slice)), self.expr(s.value))]
-            raise Unsupported(f"py assignment {ast.unparse(s)}")
-        if isinstance(s, ast.AugAssign) and isinstance(s.target, ast.Name):
-            ops = {ast.Add: "+", ast.Sub: "-"}
+        if isinstance(s, ast.Continue):
+            return [("continue",)]
+        if isinstance(s, ast.Return):
+            return self._return(self.expr(s.value) if s.value is not None else None)
+        if isinstance(s, ast.Raise):
+            return [("raise", self.expr(s.exc) if s.exc is not None else None)]
+        if isinstance(s, ast.AnnAssign):
+            if s.value is None:
+                return []
+            return self._assign(self.lvalue(s.target), self.expr(s.value))
+        if isinstance(s, ast.Assign):
+            out = []
+            val = self.expr(s.value)
+            if len(s.targets) > 1:
+                t = self._fresh()
+                out.extend(self._assign(t, val))
+                val = t
+            for tg in s.targets:
+                if isinstance(tg, (ast.Tuple, ast.List)):
+                    lvs = [self.lvalue(e) for e in tg.elts]
+                    if val[0] == "tuple" and len(val[1]) == len(lvs):
+                        # right-hand sides first, then the stores, left to right (Python's order)
+                        tmps = []
+                        for e in val[1]:
+                            t = self._fresh()
+                            out.append(("set", t, e))
+                            tmps.append(t)
+                        for lv, t in zip(lvs, tmps):
+                            out.append(("set", lv, t))
+                    else:
+                        out.append(("unpack", lvs, val))
+                else:
+                    out.extend(self._assign(self.lvalue(tg), val))
+            return out
+        if isinstance(s, ast.AugAssign):
+            ops = {ast.Add: "+", ast.Sub: "-", ast.Mult: "*", ast.Div: "/"}
             if type(s.op) not in ops:
-                raise Unsupported("py augmented op")
-            v = ("var", s.target.id)
-            return [("set", v, ("bin", ops[type(s.op)], v, self.expr(s.value)))]
+                raise Unsupported("py augmented operator")
+            lv = self.lvalue(s.target)
+            return [("set", lv, ("bin", ops[type(s.op)], lv, self.expr(s.value)))]
         if isinstance(s, ast.For):
             it = s.iter
-            if not (isinstance(it, ast.Call) and isinstance(it.func, ast.Name) and it.func.id == "range"
+            if not (isinstance(it, ast.Call) and isinstance(it.func, ast.Name) and it.func.id == "range" and not it.keywords
                     and isinstance(s.target, ast.Name) and not s.orelse):
-                raise Unsupported("py for loop is not range()")
+                raise Unsupported("py for loop is not `for v in range(...)`")
             if len(it.args) == 1:
-                lo, hi = ("num", Fraction(0)), self.expr(it.args[0])
+                lo, hi = ZERO, self.expr(it.args[0])
             elif len(it.args) == 2:
                 lo, hi = self.expr(it.args[0]), self.expr(it.args[1])
             else:
-                raise Unsupported("range with step")
-            return [("for", s.target.id, lo, hi, self.block(s.body))]
-        if isinstance(s, ast.While) and not s.orelse:
-            return [("while", self.expr(s.test), self.block(s.body))]
+                raise Unsupported("range with a step")
+            v = ("var", s.target.id)
+            body = self.block(s.body)
+            # `for v in range(lo, hi)` == `v = lo; while v < hi: body; v += 1` when the body leaves v and the variables of hi alone
+            # (checked); after the loop Python's v differs from C's, so it is marked undefined
+            assigned = assigned_vars(body)
+            if s.target.id in assigned or (expr_vars(hi) & assigned):
+                raise Unsupported("py for loop whose body assigns the loop variable or its bound")
+            return [("set", v, lo), ("loop", ("cmp", "<", v, hi), body, [("set", v, ("bin", "+", v, ONE))]), ("havoc", s.target.id)]
+        if isinstance(s, ast.While):
+            if s.orelse:
+                raise Unsupported("while ... else")
+            c = self.expr(s.test)
+            if c == ("bool", True) or (c[0] == "num" and c[1] != 0):
+                c = None
+            return [("loop", c, self.block(s.body), [])]
         if isinstance(s, ast.If):
             return [("if", self.expr(s.test), self.block(s.body), self.block(s.orelse))]
         raise Unsupported(f"py statement {type(s).__name__}: {ast.unparse(s)[:60]}")
 
-    def group_rows(self, stmts):
-        """n += 1 ; a[n,0]=..; a[n,1]=.. ; b[n,0]=..  ->  emit a (...), emit b (...)"""
-        out = []
-        i = 0
-        rv = ("var", self.rowvar)
-        inc = ("set", rv, ("bin", "+", rv, ("num", Fraction(1))))
-        while i < len(stmts):
-            s = stmts[i]
-            if s == inc:
-                i += 1
-                rows = {}
-                order = []
-                while i < len(stmts) and stmts[i][0] == "cell":
-                    _, arr, r, c, e = stmts[i]
-                    if r != rv:
-                        raise Unsupported("output row is not the row counter")
-                    if arr not in rows:
-                        rows[arr] = []
-                        order.append(arr)
-                    if c != len(rows[arr]):
-                        raise Unsupported("output columns not written in order 0,1,2..")
-                    if order[-1] != arr:
-                        raise Unsupported("interleaved output arrays")
-                    rows[arr].append(e)
-                    i += 1
-                if not rows:
-                    raise Unsupported("row counter incremented without an output row")
-                for arr in order:
-                    out.append(("emit", arr, tuple(rows[arr])))
-            elif s[0] == "cell":
-                raise Unsupported("output store without a preceding row-counter increment")
-            else:
-                out.append(s)
-                i += 1
-        return out
+
+class PyUnit:
+    """a Python module: module-level functions lowered on demand; module constants bound once to a literal are visible to the executor"""
+
+    def __init__(self, tree):
+        self.tree = tree
+        self.defs = {}
+        for st in tree.body:
+            if isinstance(st, ast.FunctionDef):
+                self.defs[st.name] = st
+        self.funcs = {}
+        count = {}
+        val = {}
+        for st in ast.walk(tree):
+            if isinstance(st, (ast.Assign, ast.AnnAssign, ast.AugAssign)):
+                tgs = st.targets if isinstance(st, ast.Assign) else [st.target]
+                for t in tgs:
+                    for x in ast.walk(t):
+                        if isinstance(x, ast.Name) and isinstance(x.ctx, ast.Store):
+                            count[x.id] = count.get(x.id, 0) + 1
+        for st in tree.body:
+            if isinstance(st, ast.Assign) and len(st.targets) == 1 and isinstance(st.targets[0], ast.Name):
+                if isinstance(st.value, ast.Constant) or (isinstance(st.value, (ast.Tuple, ast.List)) and all(isinstance(e, ast.Constant) for e in st.value.elts)):
+                    val[st.targets[0].id] = st.value
+        self.consts = {k: v for k, v in val.items() if count.get(k) == 1 and k not in self.defs}
+
+    def func(self, name, required=True):
+        if name not in self.funcs:
+            if name not in self.defs:
+                if required:
+                    raise AnchorError(f"python function {name} not found")
+                return None
+            self.funcs[name] = PyFunc(self.defs[name])
+        return self.funcs[name]
+
+    def helper(self, name):
+        return self.func(name, required=False) if name in self.defs else None
+
+    def const(self, name):
+        if name in self.consts:
+            return _literal(self.consts[name])
+        return None
+
+
+def _literal(n):
+    if isinstance(n, ast.Constant):
+        v = n.value
+        if isinstance(v, bool):
+            return ("bool", v)
+        if v is None:
+            return ("null",)
+        if isinstance(v, int):
+            return ("num", Fraction(v))
+        if isinstance(v, float):
+            return ("num", Fraction(repr(v)))
+        if isinstance(v, str):
+            return ("str", v)
+    if isinstance(n, (ast.Tuple, ast.List)):
+        return ("obj", "tuple") + tuple(_literal(e) for e in n.elts)
+    raise Unsupported("module constant")
 
 
 # ---------------------------------------------------------------------------
@@ -403,153 +764,98 @@ class PyLower:
 def walk_ir(stmts):
     for s in stmts:
         yield s
-        if s[0] == "for":
-            yield from walk_ir(s[4])
-        elif s[0] == "while":
+        if s[0] == "loop":
             yield from walk_ir(s[2])
+            yield from walk_ir(s[3])
         elif s[0] == "if":
             yield from walk_ir(s[2])
             yield from walk_ir(s[3])
 
 
+def assigned_vars(stmts):
+    out = set()
+    for s in walk_ir(stmts):
+        if s[0] == "set" and s[1][0] == "var":
+            out.add(s[1][1])
+        elif s[0] == "unpack":
+            out |= {lv[1] for lv in s[1] if lv[0] == "var"}
+        elif s[0] == "havoc":
+            out.add(s[1])
+    return out
+
+
 def expr_vars(e, acc=None):
     acc = set() if acc is None else acc
-    if e[0] == "var":
-        acc.add(e[1])
-    elif e[0] == "idx":
-        acc.add(e[1])
-        expr_vars(e[2], acc)
-    elif e[0] in ("bin", "cmp"):
-        expr_vars(e[2], acc)
-        expr_vars(e[3], acc)
-    elif e[0] in ("neg", "abs"):
-        expr_vars(e[1], acc)
+    if isinstance(e, tuple):
+        if e and e[0] == "var":
+            acc.add(e[1])
+        else:
+            for x in e:
+                expr_vars(x, acc)
+    elif isinstance(e, list):
+        for x in e:
+            expr_vars(x, acc)
+    elif isinstance(e, dict):
+        for x in e.values():
+            expr_vars(x, acc)
     return acc
 
 
-def canon_expr(e):
-    """commutativity of + only (as stated in DESIGN C05-R1); everything else exact"""
-    if e[0] == "bin":
-        a, b = canon_expr(e[2]), canon_expr(e[3])
-        if e[1] == "+" and repr(b) < repr(a):
-            a, b = b, a
-        return ("bin", e[1], a, b)
-    if e[0] == "cmp":
-        return ("cmp", e[1], canon_expr(e[2]), canon_expr(e[3]))
-    if e[0] in ("neg", "abs"):
-        return (e[0], canon_expr(e[1]))
-    if e[0] == "idx":
-        return ("idx", e[1], canon_expr(e[2]))
-    return e
-
-
-def canon(stmts):
+def loops_of(stmts):
+    """the loop statements of a body in source order with their nesting depth: [(loop stmt, depth, parent loop | None)]"""
     out = []
-    for s in stmts:
-        if s[0] == "set":
-            lv = s[1] if s[1][0] == "var" else ("idx", s[1][1], canon_expr(s[1][2]))
-            out.append(("set", lv, canon_expr(s[2])))
-        elif s[0] == "emit":
-            out.append(("emit", s[1], tuple(canon_expr(e) for e in s[2])))
-        elif s[0] == "for":
-            out.append(("for", s[1], canon_expr(s[2]), canon_expr(s[3]), canon(s[4])))
-        elif s[0] == "while":
-            out.append(("while", canon_expr(s[1]), canon(s[2])))
-        elif s[0] == "if":
-            out.append(("if", canon_expr(s[1]), canon(s[2]), canon(s[3])))
-        else:
-            out.append(s)
-    return out
 
-
-def rename(stmts, mp):
-    def rx(e):
-        if e[0] == "var":
-            return ("var", mp.get(e[1], e[1]))
-        if e[0] == "idx":
-            return ("idx", mp.get(e[1], e[1]), rx(e[2]))
-        if e[0] in ("bin", "cmp"):
-            return (e[0], e[1], rx(e[2]), rx(e[3]))
-        if e[0] in ("neg", "abs"):
-            return (e[0], rx(e[1]))
-        return e
-
-    out = []
-    for s in stmts:
-        if s[0] == "set":
-            out.append(("set", rx(s[1]), rx(s[2])))
-        elif s[0] == "emit":
-            out.append(("emit", mp.get(s[1], s[1]), tuple(rx(e) for e in s[2])))
-        elif s[0] == "for":
-            out.append(("for", mp.get(s[1], s[1]), rx(s[2]), rx(s[3]), rename(s[4], mp)))
-        elif s[0] == "while":
-            out.append(("while", rx(s[1]), rename(s[2], mp)))
-        elif s[0] == "if":
-            out.append(("if", rx(s[1]), rename(s[2], mp), rename(s[3], mp)))
-        else:
-            out.append(s)
-    return out
-
-
-def alpha(stmts):
-    """rename identifiers by order of first occurrence -> comparison up to renaming"""
-    mp = {}
-
-    def see(nm):
-        if nm not in mp:
-            mp[nm] = f"v{len(mp)}"
-
-    def sx(e):
-        if e[0] == "var":
-            see(e[1])
-        elif e[0] == "idx":
-            see(e[1])
-            sx(e[2])
-        elif e[0] in ("bin", "cmp"):
-            sx(e[2])
-            sx(e[3])
-        elif e[0] in ("neg", "abs"):
-            sx(e[1])
-
-    def ss(stmts):
-        for s in stmts:
-            if s[0] == "set":
-                sx(s[2])
-                sx(s[1])
-            elif s[0] == "emit":
-                see(s[1])
-                for e in s[2]:
-                    sx(e)
-            elif s[0] == "for":
-                see(s[1])
-                sx(s[2])
-                sx(s[3])
-                ss(s[4])
-            elif s[0] == "while":
-                sx(s[1])
-                ss(s[2])
+    def go(ss, depth, parent):
+        for s in ss:
+            if s[0] == "loop":
+                out.append((s, depth, parent))
+                go(s[2], depth + 1, s)
+                go(s[3], depth + 1, s)
             elif s[0] == "if":
-                sx(s[1])
-                ss(s[2])
-                ss(s[3])
-
-    ss(stmts)
-    return rename(stmts, mp), mp
+                go(s[2], depth, parent)
+                go(s[3], depth, parent)
+    go(stmts, 0, None)
+    return out
 
 
 def fmt_expr(e):
-    if e[0] == "num":
+    if not isinstance(e, tuple) or not e:
+        return str(e)
+    k = e[0]
+    if k == "num":
         return str(float(e[1])) if e[1].denominator != 1 else str(e[1].numerator)
-    if e[0] == "var":
+    if k in ("var", "sym"):
         return e[1]
-    if e[0] == "idx":
-        return f"{e[1]}[{fmt_expr(e[2])}]"
-    if e[0] in ("bin", "cmp"):
+    if k == "str":
+        return repr(e[1])
+    if k == "null":
+        return "NULL"
+    if k == "bool":
+        return str(e[1])
+    if k == "idx":
+        return f"{fmt_expr(e[1])}[{fmt_expr(e[2])}]"
+    if k == "idx2":
+        return f"{fmt_expr(e[1])}[{fmt_expr(e[2])}, {fmt_expr(e[3])}]"
+    if k == "upto":
+        return f"{fmt_expr(e[1])}[:{fmt_expr(e[2])}]"
+    if k in ("bin", "cmp"):
         return f"({fmt_expr(e[2])} {e[1]} {fmt_expr(e[3])})"
-    if e[0] == "neg":
+    if k == "neg":
         return f"-{fmt_expr(e[1])}"
-    if e[0] == "abs":
+    if k == "not":
+        return f"!{fmt_expr(e[1])}"
+    if k == "abs":
         return f"|{fmt_expr(e[1])}|"
+    if k in ("and", "or"):
+        return f"({fmt_expr(e[1])} {k} {fmt_expr(e[2])})"
+    if k == "cond":
+        return f"({fmt_expr(e[1])} ? {fmt_expr(e[2])} : {fmt_expr(e[3])})"
+    if k == "call":
+        return f"{e[1]}({', '.join([fmt_expr(a) for a in e[2]] + [f'{n}={fmt_expr(v)}' for n, v in e[3].items()])})"
+    if k == "tuple":
+        return "(" + ", ".join(fmt_expr(x) for x in e[1]) + ")"
+    if k == "attr":
+        return f"{fmt_expr(e[1])}.{e[2]}"
     return str(e)
 
 
@@ -557,32 +863,27 @@ def fmt(stmts, ind=0):
     out = []
     p = "  " * ind
     for s in stmts:
-        if s[0] == "set":
+        k = s[0]
+        if k == "set":
             out.append(f"{p}{fmt_expr(s[1])} = {fmt_expr(s[2])}")
-        elif s[0] == "emit":
-            out.append(f"{p}emit {s[1]} <- ({', '.join(fmt_expr(e) for e in s[2])})")
-        elif s[0] == "for":
-            out.append(f"{p}for {s[1]} in {fmt_expr(s[2])}..{fmt_expr(s[3])}:")
-            out.extend(fmt(s[4], ind + 1))
-        elif s[0] == "while":
-            out.append(f"{p}while {fmt_expr(s[1])}:")
+        elif k == "unpack":
+            out.append(f"{p}{', '.join(fmt_expr(x) for x in s[1])} = {fmt_expr(s[2])}")
+        elif k == "loop":
+            out.append(f"{p}loop {fmt_expr(s[1]) if s[1] is not None else 'forever'}:")
             out.extend(fmt(s[2], ind + 1))
-        elif s[0] == "if":
+            if s[3]:
+                out.append(f"{p}step:")
+                out.extend(fmt(s[3], ind + 1))
+        elif k == "if":
             out.append(f"{p}if {fmt_expr(s[1])}:")
             out.extend(fmt(s[2], ind + 1))
             if s[3]:
                 out.append(f"{p}else:")
                 out.extend(fmt(s[3], ind + 1))
+        elif k in ("return", "raise", "expr"):
+            out.append(f"{p}{k} {fmt_expr(s[1]) if s[1] is not None else ''}")
+        elif k in ("goto", "label", "havoc"):
+            out.append(f"{p}{k} {s[1]}")
         else:
-            out.append(f"{p}{s[0]}")
+            out.append(f"{p}{k}")
     return out
-
-
-def first_diff(a, b):
-    fa, fb = fmt(a), fmt(b)
-    for i in range(max(len(fa), len(fb))):
-        x = fa[i] if i < len(fa) else "<end>"
-        y = fb[i] if i < len(fb) else "<end>"
-        if x != y:
-            return {"position": i, "left": x.strip(), "right": y.strip()}
-    return None
